@@ -45,6 +45,12 @@ CHECKS = {
         "Known finding S4a (pinned by a repository test) excluded by a narrow structural predicate and counted.",
         "DESIGN.md §5 C06",
     ),
+    "C07": (
+        "exhaustive atom tables + Hypothesis operand expressions; text round-trip oracle (dep-logic re-parse + packaging acceptance + truth-table equality)",
+        "Every marker produced by parse/&/|/only/exclude/without_extras on C02's operand space is rendered; the text must be accepted by parse_marker and by packaging, must not contain <empty>, and must evaluate like the original on the environment grid; Empty and Any must render as <empty> / '' and parse back to themselves.",
+        "Truth tables on the C02 grid (extra as sets); M4 rows excluded and counted.",
+        "DESIGN.md §5 C07",
+    ),
     "C08": (
         "exhaustive tag-universe grid + Hypothesis specs/compressed tag sets against a rule predicate over a packaging-decided interpreter grid",
         "30 requires_python shapes x 5 implementation/gil settings x every single (python, abi) tag of the stated universe (170 python tags x ~10 ABIs) decided exhaustively, plus generated requires_python texts with compressed tag sets; verdict and the first three score components must equal the statement's rule evaluated on the dense interpreter grid X.Y.Z (Z<=40).",
@@ -57,6 +63,24 @@ CHECKS = {
         "fat* formats stripped; linux_<arch> optional on musllinux; musllinux_1_0 (packaging only) ignored in the cross-check; arm64 on macOS 10.x excluded.",
         "DESIGN.md §5 C09",
     ),
+    "C10": (
+        "Hypothesis rule-based state machine over parse/&/|/reparse/variant histories; warm-vs-cold differential oracle, fresh-interpreter cross-check",
+        "Histories of up to 30 (quick) / 50 (thorough) operations over 16 base atoms x 4 spellings (so cache keys collide); every step is a probe whose warm observation (text, class, truth table, is_any/is_empty) must equal the cold recomputation of its recipe with all caches cleared and fresh objects; sample probes are additionally recomputed in a new interpreter process.",
+        "Cold = all functools caches found in dep_logic cleared; single thread; histories bounded; PYTHONHASHSEED=0.",
+        "DESIGN.md §5 C10",
+    ),
+    "C11": (
+        "complete enumeration of Python-version atoms and simple specifiers x interpreter grid; three-way agreement (specifier view / evaluate / packaging)",
+        "All 330 atoms (2 variables x 9 literals x 7 operators x 2 operand orders, wildcards, 7 in/not-in lists) and 110 from_specifier inputs x 2 names on 315 interpreters: value in atom.specifier <=> atom.evaluate <=> packaging; from_specifier result is None or true exactly where packaging's SpecifierSet admits.",
+        "M4 rows excluded (known finding).",
+        "DESIGN.md §5 C11",
+    ),
+    "C12": (
+        "Hypothesis operand expressions x variable subsets + fixed nested shapes x all subsets; structural (mentioned variables) and truth-table implication oracle",
+        "For a, b, a&b, a|b and a fixed set of nested texts: only(N) mentions no variable outside N at any depth, is implied by m on every row, equals m when N covers m's variables; exclude(x)/without_extras never mention x and are the identity in meaning when x is not mentioned.",
+        "Nothing is asserted about exclude() of a mentioned variable beyond absence, as in the statement.",
+        "DESIGN.md §5 C12",
+    ),
     "C13": (
         "exhaustive fixed pools of coincidence objects + Hypothesis pools, relational oracle (reflexive/symmetric/transitive/hash/interchangeable)",
         "All pairs and triples of a fixed pool of ~60 specifier objects and ~70 marker objects built to contain cross-class equalities, cached-field variants and mirrored atoms, plus generated pools with differently-built copies; equal objects must hash alike, collapse in sets and give results of the same meaning as operands.",
@@ -68,6 +92,12 @@ CHECKS = {
         "19 laws on every ordered triple of canonical sets over 2 bounds (x4 assignments x2 universal spellings) and a seed-chosen 1/8 slice of the 2M triples over 3 bounds in quick, all of them in thorough; Hypothesis triples with arbitrary shapes; marker laws by truth-table equality on generated triples.",
         "Laws are judged with the library's own == (specifiers) / evaluate() (markers).",
         "DESIGN.md §5 C14",
+    ),
+    "C15": (
+        "exhaustive atom tables + Hypothesis operand expressions (incl. Empty/Any operands); recursive structural validator",
+        "Every marker produced by parse/&/|/only/exclude/without_extras is walked: Empty | Any | atom/group | compound with >=2 pairwise distinct children, none Empty/Any/same kind; plus rendering has no <empty>/dangling operator and is_empty()/is_any() only on the special classes.",
+        "Atom groups count as single atoms.",
+        "DESIGN.md §5 C15",
     ),
     "C16": (
         "exhaustive pairs over a configuration grid + Hypothesis requires_python pairs; relational (monotonicity / nesting / compare laws) oracle",
